@@ -165,8 +165,10 @@ def dimer_checks(part, seed):
 
     water = (["O", "H", "H"], np.array([[0.0, 0.0, 0.1], [0.757, 0.586, 0.0], [-0.757, 0.586, 0.0]]))
     chfcl = (["C", "H", "F", "Cl", "Br"], np.array([[0.0, 0.0, 0.0], [0.63, 0.63, 0.63], [-0.8, -0.8, 0.8], [-1.0, 1.0, -1.0], [1.1, -1.1, -1.1]]))
+    # coordinates on an integer grid, stored as an integer array (a toy lattice model): centroids are not whole numbers
+    grid_mol = (["C", "N", "O", "F", "Cl"], np.array([[0, 0, 0], [2, 1, 0], [-1, 2, 1], [1, -2, 2], [0, 1, -3]]))
     alive = []
-    for syms, pos in (water, chfcl):
+    for syms, pos in (water, chfcl, grid_mol):
         for tname, T in transforms(seed):
             part.ev()
             part.tr()
@@ -175,6 +177,11 @@ def dimer_checks(part, seed):
             shift = np.array([3.0, -4.0, 5.5])
             c = pos.mean(axis=0)
             posb = (pos - c) @ T.T + c + shift
+            if pos.dtype.kind == "i":
+                # both molecules integer-typed: the second is the first moved by a whole-number vector (identity rotation only)
+                if tname != "identity":
+                    continue
+                posb = pos + np.array([3, -4, 5])
             b = Molecule([Element[s] for s in syms], posb)
             case = {"kind": "dimer", "mol": syms, "transform": tname, "seed": seed}
             try:
